@@ -417,7 +417,7 @@ class C13(common.Prop):
     vo_deps = ['theories/Frag/StripCheck.vo']
     prop_file = 'theories/Properties/C13.v'
     case_requires = ('From Coq Require Import String.\nFrom Coq Require Import List Ascii ZArith Bool.\n'
-                     'From CGV Require Import Base.PyBase Base.PyVal Frag.NDict Frag.StripImpl Frag.FragText Frag.FragTextX Frag.SmilesParse Frag.Template Frag.TemplateFinal Frag.StripCheck.')
+                     'From CGV Require Import Base.PyBase Base.PyVal Frag.NDict Frag.StripImpl Frag.FragText Frag.FragTextX Frag.SmilesParse Frag.Template Frag.TemplateFinal Frag.TemplateChiral Frag.StripCheck.')
     quick_cases = 2400
     thorough_cases = 40000
     extended_cases = 12000
@@ -443,7 +443,7 @@ class C13(common.Prop):
 
     def corpus(self, ctx):
         ring_on, split_on = self.helpers_enabled(ctx)
-        return [c for c in self._corpus() if c['kind'] == 'strip' or (c['kind'] == 'ring' and ring_on)
+        return [c for c in self._corpus() if c['kind'] in ('strip', 'smiles', 'template') or (c['kind'] == 'ring' and ring_on)
                 or (c['kind'] == 'split' and split_on)]
 
     def _corpus(self):
@@ -488,7 +488,12 @@ class C13(common.Prop):
         out += [{'kind': 'template', 'name': 'PEO', 'text': t} for t in
                 ['[$]COC[$]', '[>]CC(/F)=C(\\F)C[<]', '[$]C[O;0.5]C[$][$1]', 'c1ccccc1[$]', 'C=1[$]CC=1', 'C.[$]', '[$]=C[NH3+]',
                  'OC[!][!]', '[H;0.3]C[$]O[C;0.5][$]', '[$]CO[C;0.5][$]([H;0.1])[H;0.2]', 'C[H]', 'Cl[$]', '[H][$]', '[Na+]',
-                 'C', '[$]c1ccccc1C(=O)[O-]', 'c1ccncc1[$]', 'O=S(=O)(O)C[$]', 'C#[N+][$]', 'CS(C)(C)C', 'FC(F)(F)[$]']]
+                 'C', '[$]c1ccccc1C(=O)[O-]', 'c1ccncc1[$]', 'O=S(=O)(O)C[$]', 'C#[N+][$]', 'CS(C)(C)C', 'FC(F)(F)[$]',
+                 # chirality marks: rs_isomer = the neighbour tuple (TemplateChiral.v)
+                 '[C@H](F)(Cl)Br', '[C@@H](F)(Cl)Br', 'F[C@H](Cl)Br[$]', 'F[C@@](Cl)(Br)I', '[$]C[C@H](F)C[$]',
+                 '[C@]1(F)(Cl)CC1', 'C1C[C@]1(F)Cl', 'C1C[C@@]12CC2Cl', 'C2C[C@@]12CC1Cl', '[C@]([H])(F)(Cl)Br',
+                 'F[C@TH1](Cl)(Br)I', 'F[C@TH2](Cl)(Br)I', 'N[C@](F)(Cl)=O', 'F[C@SP1](Cl)(Br)I', '[C@H2](F)Br', '[C@H]',
+                 'C.[C@H](F)(Cl)Br', '[$]C[C@H]([$])F', 'F[C@H;0.5](Cl)Br', 'F[C@@H](Cl)[C@H](Br)O', 'C[C@@H](N)C(=O)O[$]']]
         out += [{'kind': 'split', 'text': t} for t in
                 ['{#A=[$]CC[$],#B=[$]OC}', '{#A=CC}', '{}', '{#A}', '{#A=C=C,#B=[C;x=R]}', '', '{', '{#A=C,}']]
         return out
@@ -525,6 +530,47 @@ class C13(common.Prop):
             text = ''.join(rng.choice(SM_ALPHABET) for _ in range(rng.randint(0, 8)))
         return {'kind': 'smiles', 'text': text}
 
+    def gen_chiral(self, rng):
+        """fragment texts with a chirality mark: a centre with three or four substituents (chains, branches,
+        ring bonds through the centre in both writing orders), some with too few / too many neighbours"""
+        mark = rng.choice(['@', '@@', '@', '@@', '@TH1', '@TH2', '@AL1', '@SP3', '@OH12'])
+        el = rng.choice(['C', 'C', 'C', 'N', 'Si', 'P', 'S'])
+        ch = rng.choice(['', '', '', '+', '-'])
+        sub = lambda: rng.choice(['F', 'Cl', 'Br', 'I', 'C', 'N', 'O', 'CC', 'C=O', 'OC', 'C#N', '[NH3+]', 'c1ccccc1', 'C(F)F', '[H]'])
+        ann = (';' + rng.choice(['0.5', 'w=2', 'x=S', 'q=0.1'])) if rng.random() < 0.15 else ''
+        ctr = lambda h: '[%s%s%s%s%s]' % (el, mark, h, ch, ann)
+        form = rng.randrange(12)
+        a, b, c, d = sub(), sub(), sub(), sub()
+        if form == 0:
+            text = '%s%s(%s)(%s)%s' % (a, ctr(''), b, c, d)
+        elif form == 1:
+            text = '%s(%s)(%s)%s' % (ctr('H'), b, c, d)
+        elif form == 2:
+            text = '%s%s(%s)%s' % (a, ctr('H'), b, c)
+        elif form == 3:
+            text = '%s1(%s)(%s)CC1' % (ctr(''), b, c)
+        elif form == 4:
+            text = 'C1C%s1(%s)%s' % (ctr(''), b, c)
+        elif form == 5:
+            text = 'C1C%s12CC2%s' % (ctr(''), c)
+        elif form == 6:
+            text = 'C2C%s12CC1%s' % (ctr(''), c)
+        elif form == 7:
+            text = '%s%s1(%s)CC1' % (a, ctr(''), b)
+        elif form == 8:
+            text = '%s%s(%s)(%s)%s' % (a, ctr(rng.choice(['H', 'H2', ''])), b, c, rng.choice(['', d]))
+        elif form == 9:
+            text = '%s%s(%s)%s%s(%s)%s' % (a, ctr('H'), b, c, ctr(''), d, sub() + '(' + sub() + ')')
+        elif form == 10:
+            text = '%s=%s(%s)%s' % (a, ctr(''), b, c)
+        else:
+            text = '%s%s%%12(%s)%sC%%12' % (a, ctr(''), b, c)
+        if rng.random() < 0.5:
+            text = text + rng.choice(['[$]', '[>]', '[<1]', '[$a]'])
+        if rng.random() < 0.3:
+            text = rng.choice(['[$]', '[<]', '[>2]']) + text
+        return {'kind': 'template', 'name': rng.choice(NAMES), 'text': text}
+
     def generate(self, ctx, n):
         rng = ctx.rng
         ring_on, split_on = self.helpers_enabled(ctx)
@@ -533,6 +579,9 @@ class C13(common.Prop):
             q = rng.random()
             if q < 0.27:
                 out.append(self.gen_smiles(rng))
+                continue
+            if q < 0.31:
+                out.append(self.gen_chiral(rng))
                 continue
             if q < 0.37:
                 toks = Builder(rng, False).build()
@@ -590,7 +639,7 @@ class C13(common.Prop):
             try:
                 pairs = list(rf.fragment_iter('{#%s=%s}' % (case['name'], case['text']), all_atom=True))
                 (fname, g), = pairs
-                skip = ('rs_isomer', '_pos', '_atom_str')
+                skip = ('_pos', '_atom_str')
                 out['nodes'] = [[n, {k: v for k, v in d.items() if k not in skip}] for n, d in g.nodes(data=True)]
                 out['edges'] = [[u, v, d.get('order')] for u, v, d in g.edges(data=True)]
                 if fname != case['name'] or any((not isinstance(n, int)) or n < 0 for n, _ in out['nodes']):
@@ -644,8 +693,12 @@ class C13(common.Prop):
             if 'exc' in impl:
                 obs = 'None'
             else:
+                def fix(d):
+                    if isinstance(d.get('rs_isomer'), list):
+                        d = dict(d, rs_isomer=tuple(d['rs_isomer']))
+                    return d
                 obs = '(Some (%s, %s))' % (
-                    lit.lst([lit.pair(lit.nat(n), lit.attrs(d)) for n, d in impl['nodes']]),
+                    lit.lst([lit.pair(lit.nat(n), lit.attrs(fix(d))) for n, d in impl['nodes']]),
                     lit.lst(['(%s, %s, %s)' % (lit.nat(u), lit.nat(v), lit.pyval(o)) for u, v, o in impl['edges']]))
             return '(CTemplate %s %s %s %s)' % (lit.s(case['name']), lit.s(case['text']), fo, obs)
         if case['kind'] == 'smiles':
